@@ -342,6 +342,38 @@ def run(chk):
                 chk.violation('later_calls_behave_as_on_a_fresh_pool', {'scenario': sc}, {'op': opi, 'outcome': oo.get('outcome'), 'raised': oo.get('exc')},
                               'after a failed call later calls start fresh workers and succeed', input_class='stuck_after_failed_start')
                 break
+    # apply submissions whose worker_init fails (or overruns) in every worker leave the pool failed as a whole; the next apply submissions
+    # start over and are served like on a fresh pool
+    fa = []
+    for _ in range(40 if chk.tier == 'quick' else 600):
+        nj = rng.choice([1, 2, 3])
+        first = {'op': 'apply_batch', 'tasks': [{'idx': i} for i in range(rng.randint(1, 3))], 'init': True, 'dur': {'kind': 'map', 'map': {}, 'default': 0.01}, 'get_timeout': 30}
+        if rng.random() < .6:
+            first['fail'] = {'init': 'all', 'exc': rng.choice(['ValueError', 'Custom', 'KeyError'])}
+        else:
+            first['worker_init_timeout'] = 0.2
+            first['init_dur'] = 5.0
+        k = rng.randint(1, 5)
+        later = {'op': 'apply_batch', 'tasks': [{'idx': i} for i in range(k)], 'dur': {'kind': 'map', 'map': {}, 'default': 0.01}, 'get_timeout': 30}
+        if rng.random() < .4:
+            later['init'] = True
+        ops = [first, later]
+        if rng.random() < .4:
+            ops.append({'op': rng.choice(['map', 'imap_unordered']), 'n': rng.randint(2, 6), 'chunk_size': 1})
+        fa.append({'seed': rng.randint(0, 10 ** 6), 'pool': {'n_jobs': nj, 'start_method': 'fork' if 'worker_init_timeout' in first else rng.choice(['fork', 'threading'])}, 'ops': ops})
+    faobs = run_scenarios(chk, 'apply submissions after apply submissions whose worker_init failed in every worker (DetSim)', fa, {'C03'}, nontrivial=lambda sc, o: True,
+                          dist=lambda sc, o: {'first': 'raises' if 'fail' in sc['ops'][0] else 'overruns', 'n_jobs': sc['pool']['n_jobs']})
+    for sc, o in zip(fa, faobs):
+        if o.get('harness_error') or o.get('stuck') or len(o.get('ops', [])) < 2:
+            continue
+        vs = []
+        for opi in range(1, len(sc['ops'])):
+            oracles.check_op(sc, o, opi, lambda p_, c_, d_: vs.append((p_, c_, d_)))
+        for p_, c_, d_ in vs:
+            if p_ in ('C09', 'C01', 'C02'):
+                chk.violation('later_calls_behave_as_on_a_fresh_pool', {'scenario': sc}, {'clause': c_, 'detail': d_}, 'after a failed call later calls start fresh workers and succeed',
+                              input_class='apply_after_failed_apply')
+                break
     # a call interrupted by Ctrl-C (at any moment, also inside the pool's deferred sections), then more calls on the same pool: they
     # behave as on a fresh pool — correct results, and the SIGINT handler the caller had is in place again (a later interrupt
     # would be acted on, not swallowed)
